@@ -31,11 +31,11 @@ META = {
     'out_of_reach': [
         'foreign images (not written by the library), arbitrary numbers of generations and arbitrary edit sequences: only one open-edit-write generation per script',
     ],
-    'bounded': ['13 scripts x one edit generation'],
+    'bounded': ['13 scripts + random ISO9660/Joliet/Rock Ridge and UDF histories, one edit generation (two for a subset; thorough: all)'],
 }
 
 MANIFEST = {
-    'level_text': 'Bounded scenarios executed by the verifier on the real code with SYMBOLIC file contents: for 13 edit scripts the written image is opened again, re-mastered without edits (byte-identical), then edited on the opened object; independent ISO9660/Joliet/RRIP/UDF readers must find the old content plus exactly the edits, untouched files keep their bytes, structures stay valid, the last-sector anchor stays in place and the image has exactly its declared length. One defect repaired (K9: UDF link counts not rebuilt on open), one recorded (K21: empty files share one inode after parsing).',
+    'level_text': 'Bounded scenarios executed by the verifier on the real code with SYMBOLIC file contents: for 13 edit scripts and 12 random edit histories (thorough: 138) the written image is opened again, re-mastered without edits (byte-identical), then edited on the opened object (for some, over two generations: open - edit - write - open - edit - write); independent ISO9660/Joliet/RRIP/UDF readers must find the old content plus exactly the edits, untouched files keep their bytes, structures stay valid, the last-sector anchor stays in place and the image has exactly its declared length. Four defects repaired (K9 UDF link counts not rebuilt on open; K45 / K46 empty UDF files sharing an Inode after open; K48 continuation blocks never released), one recorded (K21: empty files share one inode after parsing).',
     'level_note': 'Scenario-level (bounded scripts, one generation), symbolic in file contents. Trusted: pyvc executing open/edit/write of the real code, the independent readers, pinned clock.',
     'design_ref': 'DESIGN.md section 4 C02',
 }
